@@ -188,6 +188,52 @@ Proof.
     + intros t' s Ht. apply Hclean. right. exact Ht.
 Qed.
 
+(* ---- programs with schema changes.  A program is a sequence of phases; in a phase the tables have the
+        columns env and the requests of the phase are executed.  The marker Schema env stands at the point from
+        which ColumnNames answers env - by the caching behaviour described in Model.C27 that is NOT the schema change
+        itself but the first statement the pooled read connection steps after it; the commits in between (at most
+        one per pooled read connection on the pinned tree) are outside this statement. ---- *)
+Definition trace_of_phases (ps : list (colenv * list (list txn))) : list cb :=
+  flat_map (fun ph => Schema (fst ph) :: flat_map trace_of (snd ph)) ps.
+Definition expected_phases (c : cfg) (ps : list (colenv * list (list txn))) : list (list jevent) :=
+  flat_map (fun ph => flat_map (expected c (fst ph)) (snd ph)) ps.
+
+Lemma streamer_request c env req rest p0 : wf env req -> no_undone_statement_in_committed req ->
+  map (map marshal_event) (streamer c env p0 (trace_of req ++ rest))
+  = (expected c env req ++ map (map marshal_event) (streamer c env [] rest))%list.
+Proof.
+  intros Hwf Hclean. unfold trace_of. cbn [app streamer streamer_step]. clear p0.
+  pose proof (events_exact_partial c env req Hwf Hclean) as Hex. unfold deliver, trace_of in Hex.
+  cbn [streamer streamer_step] in Hex. rewrite <- Hex. clear Hex.
+  induction req as [|t req IH]; [reflexivity|].
+  cbn [flat_map]. rewrite <- app_assoc, !streamer_txn, !map_app. rewrite <- app_assoc. f_equal.
+  apply IH.
+  - intros t' s d Ht. apply Hwf. right. exact Ht.
+  - intros t' s Ht. apply Hclean. right. exact Ht.
+Qed.
+
+Lemma streamer_requests c env reqs rest :
+  (forall req, In req reqs -> wf env req /\ no_undone_statement_in_committed req) ->
+  map (map marshal_event) (streamer c env [] (flat_map trace_of reqs ++ rest))
+  = (flat_map (expected c env) reqs ++ map (map marshal_event) (streamer c env [] rest))%list.
+Proof.
+  induction reqs as [|req reqs IHr]; intros Hq; [reflexivity|].
+  cbn [flat_map]. rewrite <- app_assoc. destruct (Hq req (or_introl eq_refl)) as [Hw Hc].
+  rewrite (streamer_request c env req _ [] Hw Hc). rewrite <- app_assoc. f_equal.
+  apply IHr. intros r Hr. apply Hq. right. exact Hr.
+Qed.
+
+Lemma events_exact_partial_phases c env0 ps :
+  (forall env reqs req, In (env, reqs) ps -> In req reqs -> wf env req /\ no_undone_statement_in_committed req) ->
+  deliver c env0 (trace_of_phases ps) = expected_phases c ps.
+Proof.
+  unfold deliver. revert env0. induction ps as [|[env reqs] ps IH]; intros env0 H; [reflexivity|].
+  unfold trace_of_phases, expected_phases. cbn [flat_map fst snd app streamer].
+  fold (trace_of_phases ps). fold (expected_phases c ps).
+  rewrite streamer_requests by (intros req Hr; apply (H env reqs req (or_introl eq_refl) Hr)).
+  f_equal. apply (IH env). intros e rs r Hin Hr. apply (H e rs r (or_intror Hin) Hr).
+Qed.
+
 (* the defect: BEGIN; INSERT 1 row; INSERT 2 rows whose second violates a constraint (statement undone); COMMIT *)
 Definition ex_env : colenv := [("t", ["id"; "a"])].
 Definition ex_ins (id : Z) (a : string) : raw :=
@@ -228,13 +274,13 @@ Lemma attach_rows env e : e_oldrow (attach_cols env e) = e_oldrow e /\ e_newrow 
 Proof. unfold attach_cols. destruct (lookup env (e_table e)); cbn; auto. Qed.
 
 (* a property of every pending event is a property of every delivered event *)
-Lemma streamer_forall (Q : event -> Prop) c env :
+Lemma streamer_forall (Q : event -> Prop) c :
   (forall d e, convert c d = Some e -> Q e) ->
-  (forall e, Q e -> Q (attach_cols env e)) ->
-  forall tr p, Forall Q p -> Forall (Forall Q) (streamer c env p tr).
+  (forall env e, Q e -> Q (attach_cols env e)) ->
+  forall tr env p, Forall Q p -> Forall (Forall Q) (streamer c env p tr).
 Proof.
-  intros Hc Ha tr. induction tr as [|x tr IH]; intros p Hp; [constructor|].
-  cbn [streamer]. destruct x as [|d| |]; cbn [streamer_step].
+  intros Hc Ha tr. induction tr as [|x tr IH]; intros env p Hp; [constructor|].
+  destruct x as [|d| | |e']; cbn [streamer streamer_step].
   - apply IH. constructor.
   - destruct (convert c d) as [e|] eqn:E.
     + apply IH. apply Forall_app. split; [exact Hp | constructor; [apply (Hc d e E) | constructor]].
@@ -244,16 +290,17 @@ Proof.
     rewrite Forall_forall in *. intros x Hx. apply in_map_iff in Hx. destruct Hx as (y & <- & Hy).
     apply Ha, Hp, Hy.
   - apply IH. constructor.
+  - apply IH. exact Hp.
 Qed.
 
 Lemma deliver_forall (Q : event -> Prop) (R : jevent -> Prop) c env tr :
   (forall d e, convert c d = Some e -> Q e) ->
-  (forall e, Q e -> Q (attach_cols env e)) ->
+  (forall env e, Q e -> Q (attach_cols env e)) ->
   (forall e, Q e -> R (marshal_event e)) ->
   Forall (Forall R) (deliver c env tr).
 Proof.
   intros Hc Ha Hm. unfold deliver.
-  pose proof (streamer_forall Q c env Hc Ha tr [] (Forall_nil _)) as H.
+  pose proof (streamer_forall Q c Hc Ha tr env [] (Forall_nil _)) as H.
   rewrite Forall_forall in *. intros g Hg. apply in_map_iff in Hg. destruct Hg as (g0 & <- & Hg0).
   specialize (H g0 Hg0). rewrite Forall_forall in *. intros j Hj.
   apply in_map_iff in Hj. destruct Hj as (e & <- & He). apply Hm, H, He.
@@ -265,7 +312,7 @@ Proof.
   intros Hid.
   apply (deliver_forall (fun e => e_oldrow e = None /\ e_newrow e = None)).
   - intros d e. apply convert_ids_only. exact Hid.
-  - intros e [H1 H2]. destruct (attach_rows env e) as (A1 & A2 & _). rewrite A1, A2. auto.
+  - intros env' e [H1 H2]. destruct (attach_rows env' e) as (A1 & A2 & _). rewrite A1, A2. auto.
   - intros e [H1 H2]. apply marshal_no_rows; assumption.
 Qed.
 
@@ -284,7 +331,7 @@ Proof.
     { unfold selected. unfold table_matches, mem in Hm. destruct (filt c) as [l|]; [|exact I].
       apply existsb_exists in Hm. destruct Hm as (x & Hx & E). apply String.eqb_eq in E. subst. exact Hx. }
     destruct (r_op d), (ids_only c); intros H; injection H as <-; exact Hs.
-  - intros e H. destruct (attach_rows env e) as (_ & _ & A). rewrite A. exact H.
+  - intros env' e H. destruct (attach_rows env' e) as (_ & _ & A). rewrite A. exact H.
   - intros e H. rewrite marshal_table. exact H.
 Qed.
 
@@ -311,4 +358,14 @@ Example ex_ids_only :
 Proof. vm_compute. reflexivity. Qed.
 Example ex_leak : deliver ex_cfg ex_env (trace_of ex_req_undone) = [[describe ex_cfg ex_env (ex_ins 20 "q"); describe ex_cfg ex_env (ex_ins 21 "r")]]
                   /\ expected ex_cfg ex_env ex_req_undone = [[describe ex_cfg ex_env (ex_ins 20 "q")]].
+Proof. vm_compute. auto. Qed.
+
+(* a table is renamed-in-place between two requests (column a becomes alpha): each phase is described with its own names *)
+Definition ex_phases : list (colenv * list (list txn)) :=
+  [ ([("t", ["id"; "a"])], [ [ {| t_stmts := [ {| s_rows := [ex_ins 1 "x"]; s_kept := true |} ]; t_committed := true |} ] ]);
+    ([("t", ["id"; "alpha"])], [ [ {| t_stmts := [ {| s_rows := [ex_ins 2 "y"]; s_kept := true |} ]; t_committed := true |} ] ]) ].
+Example ex_phases_exact :
+  deliver ex_cfg [] (trace_of_phases ex_phases) = expected_phases ex_cfg ex_phases
+  /\ map (map j_after) (deliver ex_cfg [] (trace_of_phases ex_phases))
+     = [[Some [("id", "i:x"); ("a", "s:x")]]; [Some [("id", "i:y"); ("alpha", "s:y")]]].
 Proof. vm_compute. auto. Qed.
